@@ -1,5 +1,10 @@
 package dagaz
 
+import "sync"
+
 type State struct {
+	// mutex serialises every access to SpatialPartition, which is shared by all
+	// participants of a session.
+	mutex            sync.Mutex
 	SpatialPartition SpatialPartition
 }
